@@ -226,14 +226,22 @@ class Runner:
             if Path(str(p) + MF).is_file():
                 shutil.copyfile(str(p) + MF, sd / (p.name + MF))
         base = sorted(files, key=lambda p: len(p.name))[0]
+        # the copy is opened by name — unless the set mixes file names of two records (a patch of the real
+        # record continued on its stub, given by explicit list): then by explicit list as well
+        uniform = len({R3.rec_name_of(p.name) for p in files}) == 1
         sn = {"k": k, "dir": sd, "cls": cls_name, "name": R3.rec_name_of(base.name), "where": base.parent,
+              "byname": uniform,
               "files": [p.name for p in files], "dump": dump, "step": len(self.concrete) - 1, "merge": merge}
         if merge:
-            sn["dump"] = self.open_dump(cls_name, sd / sn["name"])
+            sn["dump"] = self.open_dump(cls_name, self.copy_arg(sn))
             self.stats["merge_snapshots"] += 1
         else:
             self.stats["snapshots"] += 1
         self.snaps.append(sn)
+
+    @staticmethod
+    def copy_arg(sn):
+        return (sn["dir"] / sn["name"]) if sn["byname"] else [sn["dir"] / fn for fn in sn["files"]]
 
     def open_dump(self, cls_name: str, arg) -> Any:
         """Dump of a read-only open, or ["REFUSED", class]."""
@@ -261,7 +269,7 @@ class Runner:
             if cn != sn["cls"] and cn == "IH5MFRecord":
                 continue   # a set committed without manifests carries no promise about the manifest-aware class
             self.stats["snapshot_checks"] += 1
-            got = self.open_dump(cn, sn["dir"] / sn["name"])
+            got = self.open_dump(cn, self.copy_arg(sn))
             if got != sn["dump"]:
                 self.problem(f"snapshot copy taken at step {sn['step']} ({sn['files']}) no longer shows the state of that "
                              f"commit when opened with {cn}", expected=sn["dump"][:4], got=got[:4], snapshot=sn["files"])
@@ -862,7 +870,7 @@ def run(ctx: vlib.Ctx):
         "code after every operation (a test, not a proof)",
     ]
     cases = [{"cmds": h, "seed": 7 + i, "rich": True, "pattern": True} for i, h in enumerate(pattern_histories())]
-    for _ in range(ctx.budget(100, 2000)):
+    for _ in range(ctx.budget(100, 1500)):
         cases.append({"cmds": gen_history(ctx.rng), "seed": ctx.rng.randrange(10**9), "rich": ctx.rng.random() < 0.7,
                       "pattern": False})
     results = vlib.pmap(w_history, cases, chunksize=2)
